@@ -73,6 +73,8 @@ class RuleResult:
             self.samples.append(sample)
 
     def bad(self, finding: Finding) -> None:
+        if any(f.key() == finding.key() for f in self.findings):
+            return  # the same construct reached in several abstract states
         self.obligations += 1
         self.cases.add((finding.function, finding.construct))
         self.findings.append(finding)
